@@ -10,7 +10,7 @@ def showOptLen : Option (List Nat) → String
   | some p => toString p.length
 
 def simBits (d : Option Nat) : Option String :=
-  match (distanceSim d : Option (Option Float32)) with
+  match (distanceSimP d : Option (Option Float32)) with
   | some (some v) => some (showF32 v)
   | some none => some "f32:nan"
   | none => none
